@@ -304,6 +304,9 @@ func (e *Engine) forceSorts() {
 	if strings.Contains(e.Spec.Text, "Slice<String>") {
 		e.Sorts.SortOf(types.NewSlice(types.Typ[types.String]))
 	}
+	if strings.Contains(e.Spec.Text, "Slice<Int>") {
+		e.Sorts.SortOf(types.NewSlice(types.Typ[types.Int]))
+	}
 }
 
 func (e *Engine) findPkg(path string) *types.Package { return e.AllPkgs[path] }
